@@ -302,7 +302,18 @@ func PutVmsa(v *spb.VmcbSaveArea, data []byte) error {
 	}
 	binary.LittleEndian.PutUint64(data[0x3E8:0x3F0], v.Xcr0)
 
-	// SEV-ES fields that follow are all zero at launch.
+	// SEV-ES fields that follow are all zero at launch: a value that would not be written is refused.
+	if err := doReserved("valid_bitmap", v.ValidBitmap, data, 0x3F0, 0x400); err != nil {
+		return err
+	}
+	if err := doReserved64("x87_state_gpa", v.X87StateGpa, data, 0x400, 0x408); err != nil {
+		return err
+	}
+	if len(v.Reserved_12) != 0 {
+		if err := checkMbz("reserved_12", v.Reserved_12, 0x408, 0x800); err != nil {
+			return err
+		}
+	}
 	for i := 0x3F0; i < SizeofVmsa; i++ {
 		data[i] = 0
 	}
